@@ -349,6 +349,17 @@ Definition emit_hunk_header (s : sm) : sm :=
   | _ => s
   end.
 
+(* new_line_state: how a line inside a hunk is classified by its first character *)
+Inductive hline := HLMinus | HLPlus | HLZero | HLEmpty | HLOther.
+Definition line_kind (line : text) : hline :=
+  match line with
+  | 45%N :: _ => HLMinus   (* '-' *)
+  | 43%N :: _ => HLPlus    (* '+' *)
+  | 32%N :: _ => HLZero    (* ' ' *)
+  | [] => HLEmpty
+  | _ => HLOther
+  end.
+
 Definition h_hunk : handler := fun idx c line s =>
   if in_hunk s then
     let s0 := if Nat.ltb (line_buffer_size c) (length (minus_lines s)) ||
@@ -357,19 +368,19 @@ Definition h_hunk : handler := fun idx c line s =>
     let s1 := emit_hunk_header s0 in
     let body := expand_tabs (tab_width c) (tl line) in
     let s2 :=
-      match line with
-      | 45%N :: _ =>   (* '-' *)
+      match line_kind line with
+      | HLMinus =>
           let s' := match state s1 with SHunkPlus => paint_buffered s1 | _ => s1 end in
           set_state (set_minus_lines s' (minus_lines s' ++ [(idx, body)])) SHunkMinus
-      | 43%N :: _ =>   (* '+' *)
+      | HLPlus =>
           set_state (set_plus_lines s1 (plus_lines s1 ++ [(idx, body)])) SHunkPlus
-      | 32%N :: _ =>   (* ' ' *)
+      | HLZero =>
           let s' := paint_buffered s1 in
           set_state (set_buf s' (buf s' ++ [(idx, ILine KZero body)])) SHunkZero
-      | [] =>          (* empty line: treated as an unchanged line with empty text *)
+      | HLEmpty =>     (* empty line: treated as an unchanged line with empty text *)
           let s' := paint_buffered s1 in
           set_state (set_buf s' (buf s' ++ [(idx, ILine KZero [])])) SHunkZero
-      | _ =>           (* e.g. "\ No newline at end of file": raw line, tabs expanded *)
+      | HLOther =>     (* e.g. "\ No newline at end of file": raw line, tabs expanded *)
           let s' := paint_buffered s1 in
           set_state (set_buf s' (buf s' ++ [(idx, ILine KOther (expand_tabs (tab_width c) line))]))
                     SHunkZero
